@@ -344,6 +344,15 @@ def run(chk, repo, tier):
                        'the buffer of exactly that shape is refused' if differ else 'undecided: the guard compares one number per shape',
                        f.loc(node))
                 acc = 'done'
+    if acc is None and acc != 'done':
+        ca2 = c.single_atom() if isinstance(c, Poly) else None
+        if ca2 is not None and is_app(ca2, ('lt', 'le')) and len(ca2[2]) == 2 and \
+                any(x in (nf.attr(S('scratch'), 'size'), nf.app('prod', nf.attr(S('scratch'), 'shape'))) for x in ca2[2]):
+            # enough elements is not enough rows and columns: a buffer with the right size and the wrong shape passes
+            chk.ob('C09-c', 'T-comparison', f.key, 'scratch guard refuses a buffer that is too small along one axis only', False,
+                   f'guard `{fmt(c)[-100:]}` compares the number of elements: a (2n, n/2) buffer has enough of them for an (n, n) grid',
+                   f.loc(node))
+            acc = 'done'
     if acc is None or (not mentions and acc != 'done'):
         raise AnalysisError(f'propagate_fft: scratch guard not understood: {fmt(c)[-200:]}')
     if acc != 'done':
